@@ -574,7 +574,7 @@ class Interp:
                 self.refine(st, a, AV(0, 0, [x for x in av.vals if f(x, bv.lo) is not None and cur.contains(f(x, bv.lo))]), depth + 1)
             elif av is not None and bv is not None and bv.vals is not None and av.is_const():
                 self.refine(st, b, AV(0, 0, [y for y in bv.vals if f(av.lo, y) is not None and cur.contains(f(av.lo, y))]), depth + 1)
-            elif av is not None and bv is not None and bv.is_const() and op == "Shr" and cur.lo >= 0:
+            elif av is not None and bv is not None and bv.is_const() and op == "Shr" and 0 <= bv.lo < 4096:
                 # x >> k in [lo, hi]  =>  x in [lo << k, ((hi+1) << k) - 1]
                 k = bv.lo
                 self.refine(st, a, AV(cur.lo << k, ((cur.hi + 1) << k) - 1), depth + 1)
@@ -996,6 +996,17 @@ class Interp:
             name = r or d or ""
             s2 = st.copy()
             self._call_obligations(s2, bi, t, name)
+            # a number handed to another routine after a narrowing cast must fit the narrower type
+            for ai, a in enumerate(t["args"]):
+                v = self.operand(st, a, (bi, "arg"))
+                if isinstance(v, tuple) and v[0] == "cast" and len(v) == 3:
+                    src = self.val(st, v[1])
+                    rng = ty_range(v[2])
+                    if src is not None and rng and not src.is_bottom():
+                        ok = src.lo >= rng[0] and src.hi <= rng[1]
+                        self.oblige("lossless", self._site_key_call("cast-arg", bi, ai), ok,
+                                    f"a value in {src} is cast to {v[2]} and passed to {name.rsplit('::', 2)[-2]}::{name.rsplit('::', 1)[-1]}: "
+                                    f"values outside the {v[2]} range are silently truncated", t.get("ln"))
             self.invalidate_for_call(s2, t["args"])
             dest = t["dest"]
             dty = self.place_ty(dest)
@@ -1081,6 +1092,10 @@ class Interp:
                     self._ordinals[(kk, i)] = counts.get(kk, 0)
                     counts[kk] = counts.get(kk, 0) + 1
         return f"{kind}#{self._ordinals.get((kind, bi), 0)}"
+
+    def _site_key_call(self, kind, bi, ai):
+        blocks = sorted(i for i, blk in enumerate(self.b.blocks) if blk["t"]["k"] == "call")
+        return f"{kind}#{blocks.index(bi) if bi in blocks else 0}.{ai}"
 
     def _call_obligations(self, st, bi, t, name):
         if not re.search(r"(::index$|::index_mut$|::split_at$)", name) or len(t["args"]) < 2:
